@@ -767,8 +767,9 @@ def check_write_sm(case, ctx):
         pa = R.parse(ta)
     except Exception as e:  # noqa: BLE001
         ctx.exclude(f"baseline-unparseable:sm:{type(e).__name__}")
-    # the writer pads empty measures with 4-wide rows whatever the key count (not a matter of row order):
-    # tolerated in the baseline, every other syntactic problem puts the case outside the domain
+    # before F27 the writer padded empty measures with 4-wide rows whatever the key count (not a matter of
+    # row order): tolerated in the baseline (the label is 0 on the repaired tree and comes back with
+    # revert_F27), every other syntactic problem puts the case outside the domain
     codes_a = sorted({p[0] for p in pa["problems"]})
     if set(codes_a) - {"row-width-mixed"}:
         ctx.exclude("baseline-unparseable:sm:" + codes_a[0])
